@@ -1096,6 +1096,57 @@ func main() {
 	writeIfChanged(filepath.Join(out, "Captured.lean"), x.capturedTable(files))
 	writeIfChanged(filepath.Join(out, "Consts.lean"), cb.String())
 	writeIfChanged(filepath.Join(out, "Skel.lean"), sb.String())
+	// ---- Hooks: every verifPoint("name", ...) call with the top-level function it sits in (the event log of the T3 families is
+	// only a linearisation while these calls are where the harness expects them)
+	var hooks []string
+	for _, f := range files {
+		for _, d := range f.Decls {
+			fd, ok := d.(*ast.FuncDecl)
+			if !ok || fd.Body == nil {
+				continue
+			}
+			owner := fd.Name.Name
+			if fd.Recv != nil && len(fd.Recv.List) == 1 {
+				t := fd.Recv.List[0].Type
+				if st, ok := t.(*ast.StarExpr); ok {
+					t = st.X
+				}
+				if ix, ok := t.(*ast.IndexListExpr); ok {
+					t = ix.X
+				}
+				if ix, ok := t.(*ast.IndexExpr); ok {
+					t = ix.X
+				}
+				if id, ok := t.(*ast.Ident); ok {
+					owner = id.Name + "." + owner
+				}
+			}
+			ast.Inspect(fd.Body, func(n ast.Node) bool {
+				ce, ok := n.(*ast.CallExpr)
+				if !ok || len(ce.Args) == 0 {
+					return true
+				}
+				if id, ok := ce.Fun.(*ast.Ident); ok && id.Name == "verifPoint" {
+					if lit, ok := ce.Args[0].(*ast.BasicLit); ok {
+						hooks = append(hooks, fmt.Sprintf("(%s, %q)", lit.Value, owner))
+					}
+				}
+				return true
+			})
+		}
+	}
+	sort.Strings(hooks)
+	var hb strings.Builder
+	hb.WriteString("/- GENERATED by /verif/go/cmd/extract from /repo — do not edit.\n   Every verifPoint hook call: (hook name, enclosing top-level function), sorted. -/\nnamespace BB.Gen.Hooks\n\ndef hooks : List (String × String) := [\n")
+	for i, h := range hooks {
+		sep := ","
+		if i == len(hooks)-1 {
+			sep = ""
+		}
+		hb.WriteString("  " + h + sep + "\n")
+	}
+	hb.WriteString("]\nend BB.Gen.Hooks\n")
+	writeIfChanged(filepath.Join(out, "Hooks.lean"), hb.String())
 	fmt.Printf("extract: %d graphs, %d symbols\n", len(x.graphs), len(symsSorted))
 }
 
